@@ -46,6 +46,11 @@ impl vstd::std_specs::cmp::PartialOrdSpecImpl for NaiveDateTime {
     open spec fn partial_cmp_spec(&self, o: &Self) -> Option<Ordering> { key_cmp(datetime_key(*self), datetime_key(*o)) }
 }
 impl PartialOrd for NaiveDateTime { #[verifier::external_body] fn partial_cmp(&self, o: &Self) -> (r: Option<Ordering>) { unimplemented!() } }
+impl Eq for NaiveTime {}
+impl Ord for NaiveTime { #[verifier::external_body] fn cmp(&self, o: &Self) -> Ordering { unimplemented!() } }
+impl Eq for NaiveDateTime {}
+impl Ord for NaiveDateTime { #[verifier::external_body] fn cmp(&self, o: &Self) -> Ordering { unimplemented!() } }
+impl Eq for Weekday {}
 impl PartialEq for Weekday { #[verifier::external_body] fn eq(&self, o: &Self) -> (r: bool) ensures r == (*self == *o) { unimplemented!() } }
 // used only at element types whose PartialEq is structural equality
 pub assume_specification<T: PartialEq> [<[T]>::contains] (s: &[T], x: &T) -> (r: bool) ensures r == s@.contains(*x);
@@ -53,9 +58,16 @@ pub assume_specification<T: PartialEq> [<[T]>::contains] (s: &[T], x: &T) -> (r:
 // ================================================================ trigger predicates (C01): written from the statement
 //@@ item src/router/route_ip.rs :: enum RouteIp
 //@@ item src/router/route_time.rs :: struct RouteTime
+//@| opt keepderive:PartialEq,Eq,PartialOrd,Ord
 //@@ item src/router/route_datetime.rs :: struct RouteDateTime
+//@| opt keepderive:PartialEq,Eq,PartialOrd,Ord
 //@@ item src/router/route_weekday.rs :: struct Weekdays
+//@| opt keepderive:PartialEq,Eq
 //@@ item src/router/route_weekday.rs :: struct RouteWeekday
+//@| opt keepderive:PartialEq,Eq,PartialOrd,Ord
+// Weekdays has a hand-written Ord (iterator adapters): assumed total order (only used as a BTreeMap key component)
+impl Ord for Weekdays { #[verifier::external_body] fn cmp(&self, other: &Self) -> Ordering { unimplemented!() } }
+impl PartialOrd for Weekdays { #[verifier::external_body] fn partial_cmp(&self, other: &Self) -> Option<Ordering> { unimplemented!() } }
 
 // a window [start, end) with open sides: start inclusive, end exclusive
 pub open spec fn in_window(start: Option<int>, end: Option<int>, t: int) -> bool {
@@ -458,9 +470,140 @@ impl<T> HeaderMatcher<T> {
     //@| outline `rules.extend(matcher.match_request(request));` => `ext_routes(&mut rules, matcher.match_request(request));`
 }
 
+// ================================================================ date-time layer (C01)
+//@@ item src/router/request_matcher/datetime.rs :: enum DateTimeCondition
+//@| opt keepderive:PartialEq,Eq,PartialOrd,Ord
+// R1: derived Clone re-stated (structural; assumed equal value for the Vec payloads via the shim clones)
+impl Clone for DateTimeCondition { #[verifier::external_body] fn clone(&self) -> (r: Self) ensures r == *self { unimplemented!() } }
+#[verifier::external_body] pub broadcast proof fn axiom_dtc_key() ensures #[trigger] vstd::std_specs::btree::key_obeys_cmp_spec::<DateTimeCondition>() {}
+#[verifier::external_body] pub broadcast proof fn axiom_dtcset_key() ensures #[trigger] vstd::std_specs::btree::key_obeys_cmp_spec::<BTreeSet<DateTimeCondition>>() {}
+//@@ rename PathAndQueryMatcher SubPath
+//@@ item src/router/request_matcher/datetime.rs :: struct DateTimeMatcher
+//@@ unrename PathAndQueryMatcher
+// statement: a date-time condition holds iff the request carries a creation time and SOME range / the weekday set admits it
+pub open spec fn dt_cond_true(c: DateTimeCondition, request: Request) -> bool {
+    request.created_at matches Some(d) && match c {
+        DateTimeCondition::DateTimeRange(v) => exists|i: int| 0 <= i < v@.len() && sat_datetime(#[trigger] v@[i], d),
+        DateTimeCondition::TimeRange(v) => exists|i: int| 0 <= i < v@.len() && sat_time(#[trigger] v@[i], d),
+        DateTimeCondition::Weekdays(w) => sat_weekday(w, d),
+    }
+}
+pub open spec fn dt_group_true(cs: Set<DateTimeCondition>, request: Request) -> bool { forall|c: DateTimeCondition| cs.contains(c) ==> dt_cond_true(c, request) }
+impl DateTimeCondition {
+    //@@ fn src/router/request_matcher/datetime.rs :: impl DateTimeCondition / fn match_value -> r
+    //@| ensures r == dt_cond_true(*self, *request),
+    //@| forlabel 0: it
+    //@| loop 0: invariant iter_ref_ok(it.history@, it.index@, it.snapshot@.remaining(), route_date_time@), forall|i: int| 0 <= i < it.index@ ==> !sat_datetime(#[trigger] route_date_time@[i], *datetime),
+    //@|         request.created_at == Some(*datetime), *self == DateTimeCondition::DateTimeRange(*route_date_time),
+    //@| loophead 0: proof { assert(*range == route_date_time@[it.index@ as int]); }
+    //@| forlabel 1: it
+    //@| loop 1: invariant iter_ref_ok(it.history@, it.index@, it.snapshot@.remaining(), route_time@), forall|i: int| 0 <= i < it.index@ ==> !sat_time(#[trigger] route_time@[i], *datetime),
+    //@|         request.created_at == Some(*datetime), *self == DateTimeCondition::TimeRange(*route_time),
+    //@| loophead 1: proof { assert(*range == route_time@[it.index@ as int]); }
+    //@| before `return true;`#0: proof { assert(sat_datetime(route_date_time@[it.index@ as int], *datetime)); assert(request.created_at matches Some(d) && d == *datetime); assert(*self matches DateTimeCondition::DateTimeRange(v) && v@ == route_date_time@); assert(dt_cond_true(*self, *request)); }
+    //@| before `return true;`#1: proof { assert(sat_time(route_time@[it.index@ as int], *datetime)); assert(request.created_at matches Some(d) && d == *datetime); assert(*self matches DateTimeCondition::TimeRange(v) && v@ == route_time@); assert(dt_cond_true(*self, *request)); }
+}
+pub type DtGroupItem<'a, T> = (&'a BTreeSet<DateTimeCondition>, &'a SubPath<T>);
+// x is contrib_dtuted by one of the first n groups (in iteration order) all of whose conditions hold
+pub open spec fn contrib_dt<T>(rem: Seq<DtGroupItem<T>>, n: int, request: Request, x: RouteRef<T>) -> bool {
+    exists|i: int| 0 <= i < n && dt_group_true((*#[trigger] rem[i].0)@, request) && (*rem[i].1).answer(request).count(x) > 0
+}
+pub proof fn lemma_contrib_false_dt<T>(rem: Seq<DtGroupItem<T>>, n: int, request: Request)
+    requires 1 <= n <= rem.len(), !dt_group_true((*rem[n - 1].0)@, request),
+    ensures forall|x: RouteRef<T>| #[trigger] contrib_dt(rem, n, request, x) == contrib_dt(rem, n - 1, request, x),
+{
+    assert forall|x: RouteRef<T>| #[trigger] contrib_dt(rem, n, request, x) == contrib_dt(rem, n - 1, request, x) by {
+        if contrib_dt(rem, n, request, x) {
+            let i = choose|i: int| 0 <= i < n && dt_group_true((*#[trigger] rem[i].0)@, request) && (*rem[i].1).answer(request).count(x) > 0;
+            assert(i < n - 1);
+        }
+        if contrib_dt(rem, n - 1, request, x) {
+            let i = choose|i: int| 0 <= i < n - 1 && dt_group_true((*#[trigger] rem[i].0)@, request) && (*rem[i].1).answer(request).count(x) > 0;
+            assert(dt_group_true((*rem[i].0)@, request));
+        }
+    }
+}
+pub proof fn lemma_contrib_true_dt<T>(rem: Seq<DtGroupItem<T>>, n: int, request: Request)
+    requires 1 <= n <= rem.len(), dt_group_true((*rem[n - 1].0)@, request),
+    ensures forall|x: RouteRef<T>| #[trigger] contrib_dt(rem, n, request, x) == (contrib_dt(rem, n - 1, request, x) || (*rem[n - 1].1).answer(request).count(x) > 0),
+{
+    assert forall|x: RouteRef<T>| #[trigger] contrib_dt(rem, n, request, x) == (contrib_dt(rem, n - 1, request, x) || (*rem[n - 1].1).answer(request).count(x) > 0) by {
+        if contrib_dt(rem, n, request, x) {
+            let i = choose|i: int| 0 <= i < n && dt_group_true((*#[trigger] rem[i].0)@, request) && (*rem[i].1).answer(request).count(x) > 0;
+            if i < n - 1 { assert(dt_group_true((*rem[i].0)@, request)); }
+        }
+        if contrib_dt(rem, n - 1, request, x) {
+            let i = choose|i: int| 0 <= i < n - 1 && dt_group_true((*#[trigger] rem[i].0)@, request) && (*rem[i].1).answer(request).count(x) > 0;
+            assert(dt_group_true((*rem[i].0)@, request));
+        }
+        if (*rem[n - 1].1).answer(request).count(x) > 0 { assert(dt_group_true((*rem[n - 1].0)@, request)); }
+    }
+}
+impl<T> DateTimeMatcher<T> {
+    // membership-exact (a route is returned iff it comes from the no-condition bucket or from a group ALL of whose conditions hold);
+    // multiplicities are not stated at this layer
+    //@@ fn src/router/request_matcher/datetime.rs :: impl <T>DateTimeMatcher<T> / fn match_request -> r
+    //@| opt r5:0
+    //@| opt r6:0
+    //@| opt r5:1
+    //@| opt r6i:1
+    //@| attr #[verifier::loop_isolation(false)]
+    //@| ensures forall|x: RouteRef<T>| r@.contains(x) <==> (self.any_datetime.answer(*request).count(x) > 0
+    //@|     || exists|cs: BTreeSet<DateTimeCondition>| self.condition_groups@.contains_key(cs) && dt_group_true(cs@, *request) && #[trigger] self.condition_groups@[cs].answer(*request).count(x) > 0),
+    //@| entry broadcast use vstd::seq_lib::group_to_multiset_ensures; broadcast use vstd::std_specs::btree::group_btree_axioms; broadcast use axiom_dtc_key; broadcast use axiom_dtcset_key;
+    //@| loopbefore 0: let ghost any0 = rules@; let ghost gm = self.condition_groups@;
+    //@|     proof { assert(forall|x: RouteRef<T>| any0.contains(x) <==> self.any_datetime.answer(*request).count(x) > 0); }
+    //@| loop 0: invariant 0 <= vf_it0_idx <= vf_it0_rem0.len(), vf_it0.remaining() == vf_it0_rem0.skip(vf_it0_idx), vf_it0_rem0.len() == gm.len(),
+    //@|         forall|c: DateTimeCondition| execute_conditions@.contains_key(c) ==> #[trigger] execute_conditions@[c] == dt_cond_true(c, *request),
+    //@|         forall|x: RouteRef<T>| #[trigger] rules@.contains(x) <==> (any0.contains(x) || contrib_dt(vf_it0_rem0, vf_it0_idx, *request, x)),
+    //@|     decreases gm.len() - vf_it0_idx,
+    //@| loophead 0: let ghost rules0 = rules@; proof { assert(conditions == vf_it0_rem0[vf_it0_idx - 1].0 && matcher == vf_it0_rem0[vf_it0_idx - 1].1); }
+    //@| loopbefore 1: let ghost cset = conditions@;
+    //@| loop 1: invariant 0 <= vf_it1_idx <= vf_it1_rem0.len(), vf_it1.remaining() == vf_it1_rem0.skip(vf_it1_idx), vf_it1_rem0.len() == cset.len(), rules@ == rules0,
+    //@|         forall|c: DateTimeCondition| execute_conditions@.contains_key(c) ==> #[trigger] execute_conditions@[c] == dt_cond_true(c, *request),
+    //@|         forall|i: int| 0 <= i < vf_it1_idx ==> dt_cond_true(*#[trigger] vf_it1_rem0[i], *request),
+    //@|     decreases cset.len() - vf_it1_idx,
+    //@| loophead 1: proof { assert(condition == vf_it1_rem0[vf_it1_idx - 1]); lemma_cover_sound(vf_it1_rem0, cset); assert(cset.contains(*condition)); }
+    //@| before `continue 'group;`#0: proof { assert(!dt_cond_true(*condition, *request)); assert(!dt_group_true(cset, *request)); lemma_contrib_false_dt(vf_it0_rem0, vf_it0_idx, *request); }
+    //@| before `continue 'group;`#1: proof { assert(!dt_cond_true(*condition, *request)); assert(!dt_group_true(cset, *request)); lemma_contrib_false_dt(vf_it0_rem0, vf_it0_idx, *request); }
+    //@| loopend 1: proof {
+    //@|     assert forall|c: DateTimeCondition| cset.contains(c) implies dt_cond_true(c, *request) by {
+    //@|         assert(vf_it1_rem0.contains(&c));
+    //@|         let i = choose|i: int| 0 <= i < vf_it1_rem0.len() && vf_it1_rem0[i] == &c;
+    //@|         assert(dt_cond_true(*vf_it1_rem0[i], *request));
+    //@|     }
+    //@|     assert(dt_group_true(cset, *request));
+    //@|     lemma_contrib_true_dt(vf_it0_rem0, vf_it0_idx, *request);
+    //@| }
+    //@| looptail 0: proof {
+    //@|     let other = rules@.subrange(rules0.len() as int, rules@.len() as int);
+    //@|     assert(rules@ =~= rules0 + other);
+    //@|     assert forall|x: RouteRef<T>| #[trigger] rules@.contains(x) <==> (rules0.contains(x) || matcher.answer(*request).count(x) > 0) by {
+    //@|         lemma_ms_add(rules0, other);
+    //@|         assert(ms_of(rules@).count(x) == ms_of(rules0).count(x) + ms_of(other).count(x));
+    //@|     }
+    //@| }
+    //@| loopend 0: proof {
+    //@|     assert forall|x: RouteRef<T>| contrib_dt(vf_it0_rem0, vf_it0_rem0.len() as int, *request, x) <==> (exists|cs: BTreeSet<DateTimeCondition>| gm.contains_key(cs) && dt_group_true(cs@, *request) && #[trigger] gm[cs].answer(*request).count(x) > 0) by {
+    //@|         if contrib_dt(vf_it0_rem0, vf_it0_rem0.len() as int, *request, x) {
+    //@|             let i = choose|i: int| 0 <= i < vf_it0_rem0.len() && dt_group_true((*#[trigger] vf_it0_rem0[i].0)@, *request) && (*vf_it0_rem0[i].1).answer(*request).count(x) > 0;
+    //@|             let cs = *vf_it0_rem0[i].0;
+    //@|             assert(gm.contains_key(cs) && gm[cs] == *vf_it0_rem0[i].1);
+    //@|             assert(gm[cs].answer(*request).count(x) > 0);
+    //@|         }
+    //@|         if exists|cs: BTreeSet<DateTimeCondition>| gm.contains_key(cs) && dt_group_true(cs@, *request) && #[trigger] gm[cs].answer(*request).count(x) > 0 {
+    //@|             let cs = choose|cs: BTreeSet<DateTimeCondition>| gm.contains_key(cs) && dt_group_true(cs@, *request) && #[trigger] gm[cs].answer(*request).count(x) > 0;
+    //@|             let i = choose|i: int| 0 <= i < vf_it0_rem0.len() && *vf_it0_rem0[i].0 == cs;
+    //@|             assert(gm[*vf_it0_rem0[i].0] == *vf_it0_rem0[i].1);
+    //@|             assert(dt_group_true((*vf_it0_rem0[i].0)@, *request));
+    //@|         }
+    //@|     }
+    //@| }
+    //@| outline `rules.extend(matcher.match_request(request));` => `ext_routes(&mut rules, matcher.match_request(request));`
+}
+
 // ================================================================ traces (C17)
 #[verifier::external_body] pub struct HeaderValueCondition { x: u8 }
-#[verifier::external_body] pub struct DateTimeCondition { x: u8 }
 //@@ item src/router/trace.rs :: struct TraceInfoHeaderCondition
 //@@ item src/router/trace.rs :: struct TraceInfoDateTimeCondition
 //@@ item src/router/trace.rs :: enum TraceInfo
